@@ -90,7 +90,7 @@ func trunc(s string, n int) string {
 func init() { checks["C01"] = checkC01 }
 
 func checkC01(rep *Report, rng *Rng, tier string) {
-	n := 260
+	n := 400
 	if tier == "thorough" {
 		n = 4000
 	}
